@@ -203,6 +203,24 @@ def check_triangulation(obs, model, ds, mpolys, spec, *, exact, family, info=Non
         if repeated:
             obs.cls('dataset-with-repeated-vertex-cell')
         result = obs.call('triangulate_dataset', triangulate_dataset, ds, mech=exception_mech(family, repeated))
+        if not isinstance(result, Failed) and isinstance(result, tuple) and len(result) == 3 and spec.get('case', 0) % 3 == 0:
+            # the arrays belong to the caller: what a caller does to them (offsetting the vertex indexes to append this mesh to
+            # another one, scaling the vertices) must not show in a later triangulation of the same dataset
+            first = tuple(numpy.array(a, copy=True) for a in result)
+            try:
+                for a in result:
+                    if isinstance(a, numpy.ndarray) and a.flags.writeable and a.size:
+                        a += 7
+            except Exception:  # noqa: BLE001
+                pass
+            again = obs.call('triangulate_dataset (second call)', triangulate_dataset, ds, mech=exception_mech(family, repeated))
+            if not isinstance(again, Failed) and isinstance(again, tuple) and len(again) == 3:
+                obs.cls('second-triangulation-after-caller-modified-the-first')
+                obs.expect(all(numpy.asarray(x).shape == y.shape and bool(numpy.array_equal(numpy.asarray(x), y)) for x, y in zip(again, first)),
+                           'a second triangulation of the same dataset is unaffected by what the caller did to the first result',
+                           lambda: {'first triangles': first[1][:4], 'second triangles': numpy.asarray(again[1])[:4]},
+                           mech='result-shared-between-calls')
+            result = first
     if isinstance(result, Failed):
         return
     if not obs.expect(isinstance(result, tuple) and len(result) == 3, 'triangulate_dataset returns (vertices, triangles, cell_indices)',
